@@ -28,8 +28,8 @@ _AUTO = {}
 _FN = {}
 
 
-def auto_discharge(P, sites):
-    ck = id(P)
+def auto_discharge(P, sites, tag="all"):
+    ck = (id(P), tag)
     if ck in _AUTO:
         return _AUTO[ck]
     fns = sorted({s["fn"] for s in sites if s["kind"] in ("assert", "call")})
@@ -540,6 +540,54 @@ def r1(ctx):
         except AnchorError as e:
             probs = [f"unevaluable: {e}"]
         ctx.ob(f"check:{ck}", not probs, f"audited bound `{ck}` no longer holds: {probs[:3]}", sample={"checker": ck})
+
+
+def reachable_fns(P, roots):
+    """Workspace functions statically reachable from the roots (resolved callees, closures included by prefix)."""
+    seen, todo = set(), [r for r in roots if r in P.fns]
+    while todo:
+        k = todo.pop()
+        if k in seen:
+            continue
+        seen.add(k)
+        for _, t in P.calls(k):
+            f = t["f"].get("fn")
+            if f in P.fns and f not in seen:
+                todo.append(f)
+        for k2_ in P.fns:
+            if k2_.startswith(k + "::{closure") and k2_ not in seen:
+                todo.append(k2_)
+    return seen
+
+
+def discharge_subset(ctx, roots, tag):
+    """The obligation ledger restricted to the call graph below `roots`: returns (sites, problems)."""
+    P = ctx.P
+    fns = reachable_fns(P, roots)
+    sites = [s for s in O.enumerate_sites(P) if s["fn"] in fns]
+    auto = auto_discharge(P, sites, tag)
+    ledger = load_ledger()
+    probs, inv, chk = [], set(), set()
+    for s in sites:
+        if s["key"] in auto:
+            continue
+        e = ledger.get(s["key"])
+        if e is None:
+            probs.append(f"undischarged {s['kind']} {s['what']} in {s['fn']}")
+            continue
+        if e["class"] == "B":
+            inv.add(e["inv"])
+        if e.get("check"):
+            chk.add(e["check"])
+    for name, table in [(i, INVARIANTS) for i in sorted(inv)] + [(c, CHECKS) for c in sorted(chk)]:
+        fn = table.get(name)
+        try:
+            r = fn(ctx) if fn else [f"no checker {name}"]
+        except AnchorError as e:
+            r = [f"unevaluable: {e}"]
+        if r:
+            probs.append(f"{name}: {r[0]}")
+    return sites, fns, probs
 
 
 # ------------------------------------------------------------------ controls
